@@ -124,8 +124,9 @@ def run_batch(prop, tier, seed, runs, procs, wall_cap, chunk=50, opts=None, quie
     total = {
         "runs": 0, "nontrivial": 0, "digests": set(), "state_sigs": set(), "probes": Counter(), "faults": Counter(),
         "steps": 0, "sim_ns": 0, "violations": [], "samples": [], "harness_errors": [], "extra": Counter(),
-        "planned": runs, "stopped_early": False, "cpu_s": 0.0,
+        "planned": runs, "stopped_early": False, "cpu_s": 0.0, "violation_counts": Counter(), "unlisted_violations": 0,
     }
+    kf = known_findings(prop)
     try:
         ctx = multiprocessing.get_context("fork")
         with ProcessPoolExecutor(max_workers=procs, mp_context=ctx, initializer=_worker_init,
@@ -158,11 +159,19 @@ def run_batch(prop, tier, seed, runs, procs, wall_cap, chunk=50, opts=None, quie
                 total["steps"] += agg["steps"]
                 total["sim_ns"] += agg["sim_ns"]
                 total["cpu_s"] += agg["t"]
-                total["violations"].extend(agg["violations"])
+                for v in agg["violations"]:
+                    b = sig_base(v["violation"]["signature"])
+                    total["violation_counts"][b] += 1
+                    if match_known(kf, b) is not None:
+                        if total["violation_counts"][b] <= 5:
+                            total["violations"].append(v)
+                    else:
+                        total["violations"].append(v)
+                        total["unlisted_violations"] += 1
                 total["harness_errors"].extend(agg["harness_errors"])
                 if len(total["samples"]) < 3:
                     total["samples"].extend(agg["samples"][: 3 - len(total["samples"])])
-                if len(total["violations"]) >= opts.get("max_violations", 40) and not total["stopped_early"]:
+                if total["unlisted_violations"] >= opts.get("max_violations", 40) and not total["stopped_early"]:
                     # enough material to report; more of the same adds nothing
                     total["stopped_early"] = True
                     total["stopped_on_violations"] = True
@@ -211,21 +220,34 @@ def in_scratch(fn):
         shutil.rmtree(scratch, ignore_errors=True)
 
 
-def triage(prop, total, minimise_budget=60.0, max_reports=8):
-    """Minimise violations, split them into known findings and new violations.  Returns (known, new)."""
+def sig_base(sig: str) -> str:
+    return sig.split("|", 1)[0]
+
+
+def match_known(kf: dict, sig: str):
+    return next((k for k in kf if sig == k or sig.startswith(k + "|")), None)
+
+
+def triage(prop, total, minimise_budget=45.0, max_reports=6):
+    """Minimise violations, split them into known findings and new violations.  Returns (known, new).
+
+    Violations are grouped by the base of their signature (clause + discriminator, without the list of
+    fault kinds that happened to be configured).  Every group is minimised (up to 2 examples) and the
+    signature of the *minimised* run decides: listed in known_findings.json -> KNOWN-FINDING, else VIOLATION.
+    """
     mod = load(prop)
     kf = known_findings(prop)
     known, new = {}, []
-    seen_sigs = Counter()
-    by_clause = {}
+    groups = {}
     for v in total["violations"]:
-        by_clause.setdefault(v["violation"]["signature"], []).append(v)
-    for sig, vs in sorted(by_clause.items()):
-        # every distinct raw signature gets minimised at least once; at most 3 examples each
-        for v in vs[:3]:
-            if len(new) >= max_reports:
-                break
-
+        groups.setdefault(sig_base(v["violation"]["signature"]), []).append(v)
+    reported = set()
+    for base, vs in sorted(groups.items()):
+        if len(new) >= max_reports:
+            break
+        vs = sorted(vs, key=lambda v: mod.spec_size(v["spec"]))
+        settled = False
+        for v in vs[:2]:
             def work(v=v):
                 if hasattr(mod, "worker_init"):
                     mod.worker_init(os.getcwd())
@@ -233,19 +255,26 @@ def triage(prop, total, minimise_budget=60.0, max_reports=8):
 
             m = in_scratch(work)
             if m is None:
-                # could not be reproduced outside its worker: nondeterminism in the harness
                 total["harness_errors"].append({"run": v["run"], "seed": v["seed"],
-                                                "error": f"violation {sig} did not reproduce on re-run"})
+                                                "error": f"violation {v['violation']['signature']} did not reproduce on re-run"})
                 continue
             msig = m["violation"]["signature"]
-            seen_sigs[msig] += 1
-            if msig in kf:
-                known.setdefault(msig, {"entry": kf[msig], "count": 0, "example_seed": v["seed"]})
-                known[msig]["count"] += len(vs)
+            kmatch = match_known(kf, msig)
+            if kmatch is not None:
+                known.setdefault(kmatch, {"entry": kf[kmatch], "count": 0, "example_seed": v["seed"]})
+                known[kmatch]["count"] += total.get("violation_counts", {}).get(base, len(vs))
+                settled = True
                 break
+            if sig_base(msig) in reported:
+                settled = True
+                break
+            reported.add(sig_base(msig))
             path = write_replay(prop, v["seed"], m)
-            new.append({"signature": msig, "replay": path, "detail": m["violation"]["detail"], "seed": v["seed"]})
+            new.append({"signature": msig, "replay": path, "detail": m["violation"]["detail"], "seed": v["seed"], "raw_count": len(vs)})
+            settled = True
             break
+        if not settled:
+            continue
     return known, new
 
 
